@@ -198,6 +198,7 @@ func runC11(c *core.Ctx, r *core.Reporter) {
 	c11walk(c, r, "C11.walk")
 	c10shadow(c, r, "C11.shadow")
 	c10wrapscope(c, r, "C11.wrapscope")
+	pkgNoState(c, r, "C11.nostate", "the Call of every built-in of pkg/flavors stores nothing into its own function object: the call site of (continue-whopper) or (send ...) inside a method is shared by every flavor that inherits the method, so anything remembered there belongs to whichever receiver came first", 10, "pkg/flavors")
 	c11combwrite(c, r)
 	c11insertpos(c, r)
 }
